@@ -32,7 +32,7 @@ claim("C01", "other",
   "abstract interpretation over node shapes + slice-ownership + loop-to-quantifier summarisation + parser layering", "DESIGN.md section 3 C01")
 
 claim("C06", "other",
-  "'No term lost, none invented' along parse -> expand -> flatten -> canonical text -> de-duplicate, decided structurally: the expansion rules shared with C01 (X1, X2, X3, X5), the pipeline is element-wise, total and unconditional (E1), de-duplication keeps first occurrences only (E2), canonical text uses all and only the node's canonical fields (E3), printer constants are scanner keywords (E4).",
+  "'No term lost, none invented' along parse -> expand -> flatten -> canonical text -> de-duplicate, decided structurally: the expansion rules shared with C01 (X1, X2, X3, X5), the expansion never filters alternatives or terms (X6), the pipeline is element-wise, total and unconditional (E1), de-duplication keeps first occurrences only (E2), canonical text uses all and only the node's canonical fields (E3), printer constants are scanner keywords (E4).",
   "The round-trip equalities themselves (a returned string re-parses to the same term; the result satisfies the expression) are value-level and not decided. Trusted: go/ssa lowering.",
   "abstract interpretation + loop-shape recognition + printer/scanner constant agreement", "DESIGN.md section 3 C06")
 
@@ -47,13 +47,13 @@ claim("C10", "other",
   "abstract interpretation + sibling cross-check of dispatchers", "DESIGN.md section 3 C10")
 
 claim("C04", "other",
-  "Error discipline decided over every return and every call of the single validity oracle: who may call the scanner/parser (V1), error implies zero result at every return in every analysed context (V2, abstract interpreter), no parse error dropped (V3), the origins of every error an entry point can return are exactly the specified ones (V4), ValidateLicenses is an in-order filter by 'parse fails' (V5), compound allowed entries are rejected before use (V6).",
+  "Error discipline decided over every return and every call of the single validity oracle: who may call the scanner/parser (V1), error implies zero result at every return in every analysed context (V2, abstract interpreter), no parse error dropped (V3), the origins of every error an entry point can return are exactly the specified ones (V4), ValidateLicenses is an in-order filter by 'parse fails' (V5), compound allowed entries are rejected before use (V6), no entry point can report success before parse accepted its expression argument (V7).",
   "That parse's accept/reject decision is the SPDX grammar is C05; determinism is C13. V4 compares error origins and their guards with the specified set, so a new legitimate error condition must be added to the specification table in rules_c04.go.",
   "call-graph who-may-call + abstract interpretation of result tuples + error provenance", "DESIGN.md section 3 C04")
 
 claim("C05", "other",
   "Narrow necessary conditions of 'the accepted language is the SPDX grammar': scanner/parser operator and token-role tables agree (G1, G3), keyword order (G2), every buffer rewrite keeps all unread input and every cursor advance covers only matched text (G4, linear entailment under inferred cursor invariants), acceptance only at end of input (G5), consumption implies error or progress (G6, abstract interpretation with a symbolic cursor), every listed id is readable (G7), precedence layering and parenthesis transparency (P1).",
-  "G8/G8p: one '+' per license atom, decided by evaluating the extracted lookup plan on X++ for every listed id, and the parser's '+' probe is independent of the token's text. G9: no error is recorded by the scanner on a path behind a successful lookup/normalisation (a listed id is never rejected afterwards). Language equality itself is NOT decided (e.g. which interleavings of WITH, ':' are accepted). No recogniser is extracted and run.",
+  "G8/G8p: one '+' per license atom, decided by evaluating the extracted lookup plan on X++ for every listed id, and the parser's '+' probe is independent of the token's text. W1: parse uses its argument only for the emptiness test and as the scanner's input (no cache or pre-normalisation keyed by a transformed text). G9: no error is recorded by the scanner on a path behind a successful lookup/normalisation (a listed id is never rejected afterwards). Language equality itself is NOT decided (e.g. which interleavings of WITH, ':' are accepted). No recogniser is extracted and run.",
   "writer/reader table agreement + linear entailment on cursor arithmetic + abstract interpretation of the token cursor", "DESIGN.md section 3 C05")
 
 claim("C09", "other",
@@ -62,7 +62,7 @@ claim("C09", "other",
   "exhaustive table lint + provenance of token and node text", "DESIGN.md section 3 C09")
 
 claim("C02", "other",
-  "The pair matcher is inlined into one propositional formula over canonical atoms and decided by exhaustive truth tables: role gates (M1), exception gate and its meaning (M2), symmetry under exchange of the two terms (M3), reflexivity (M4); suffix arithmetic (M5) and the +/no+ cell structure with the direction of 'later' (M6/T7) structurally; the family table the position atoms read is checked exhaustively (T1-T4) together with its readers (T5, T6, T8).",
+  "The pair matcher is inlined into one propositional formula over canonical atoms and decided by exhaustive truth tables: role gates (M1), exception gate and its meaning (M2), symmetry under exchange of the two terms (M3), reflexivity (M4); suffix arithmetic (M5) and the +/no+ cell structure with the direction of 'later' (M6/T7) structurally; the family table the position atoms read is checked exhaustively (T1-T4) together with its readers (T5, T6, T8); X4: Satisfies consults the allowed entries through the two pair matchers only (no index, fast path or side table between a term and an entry).",
   "Atoms (string equalities, position comparisons) are treated as independent propositions apart from the identities x==x, EqualFold(x,x), not(x>x); per-pair outcomes over the ~670 ids are value-level and follow only through the table rules. Known finding T2 (MPL-1.0/MPL-1.1) applies.",
   "symbolic inlining to a propositional formula + exhaustive truth tables + table lint", "DESIGN.md section 3 C02")
 
